@@ -1,5 +1,541 @@
-import DesperModel.Dict
 import DesperModel.Proto
+/-
+  Model of `desper/loop.py` (switch, quit_loop, Loop, SimpleLoop) together with the handle cache
+  of `desper/model/tree.py:40-56`, `WorldHandle.load` (`desper/model/world.py:44-61`) and the
+  part of `desper/events.py` that makes a disabled dispatcher hold its events (97-136).
+
+  Mirrors, statement by statement (line numbers of `desper/loop.py` after the `fix:` commits
+  2f4005b (D16), df8dc89 (D15), 0ba2868 (D25)):
+    Handle.__call__ / clear      model/tree.py:40-51           callHandle / clearHandle
+    WorldHandle.load             model/world.py:44-61          (inside callHandle)
+    EventDispatcher.dispatch     events.py:97-121              dispatchWith
+    dispatch_enabled setter      events.py:127-145             disable / release / enable
+    quit_loop                    loop.py:18-34                 quitWith, act (.quit, .quitTo)
+    switch                       loop.py:37-83                 restartOf, switchOut, switchIn, doSwitch
+    World.process                logic/world.py:503-513        processWorld / runProcs / runProc
+    Loop.start                   loop.py:127-139               start
+    Loop.switch                  loop.py:148-176               loopSwitch
+    SimpleLoop.start             loop.py:203-211               start
+    SimpleLoop.loop              loop.py:213-244               loopStep / loopRun / handleSwitch
+    SimpleLoop.switch            loop.py:246-254               simpleSwitch
+
+  World instances are named `(handle, load number)`.  Each world has one passive listener that
+  listens to every event name used here: a delivery is a log entry `ev instance event args`
+  followed by the scripted reaction of that delivery (`react n` for the n-th delivery overall):
+  nothing, `switch(...)`, `raise SwitchWorld(...)`, `quit_loop()`, `quit_loop(h())`, `raise Quit`,
+  `raise Other`.  Re-entrancy (a callback that switches, whose on_switch_out callback quits, ...)
+  is real recursion bounded by a fuel that stands for "the user's callbacks terminate".
+  The clock is a finite list of readings (one per frame, with that frame's script); the time
+  function of the scenario raises `ClockExhausted` when the list is used up, which ends the run
+  like any other exception — so the loop itself is a structural recursion over the frame list.
+-/
 namespace Desper.Loop
-def runScenario (_lines : List String) : List String := ["not-implemented"]
+open Desper
+
+abbrev Handle := Nat
+
+/-- a world instance: the `n`-th world loaded by handle `h` (printed `h#n`) -/
+structure Inst where
+  h : Handle
+  n : Nat
+deriving DecidableEq, Repr, Inhabited
+
+inductive Ev where
+  | worldLoad | switchIn | switchOut | quit | update
+  | custom (k : Nat)
+deriving DecidableEq, Repr, Inhabited
+
+inductive Args where
+  | unit
+  | worlds (frm : Option Inst) (to : Inst)
+  | loaded (h : Handle) (i : Inst)
+  | dt (d : Int)
+  | tok (k : Nat)
+deriving DecidableEq, Repr, Inhabited
+
+inductive Exc where
+  | quit
+  | switch (h : Handle) (cc cn : Bool)
+  | other
+  | attributeError
+  | clockExhausted
+  /-- a world instance that was never loaded was addressed: unreachable, never defaulted -/
+  | noWorld
+deriving DecidableEq, Repr, Inhabited
+
+inductive Outcome where
+  | ok
+  | raised (e : Exc)
+  | outOfFuel
+deriving DecidableEq, Repr, Inhabited
+
+/-- what a processor, a callback or a coroutine step does -/
+inductive Act where
+  | none
+  | switch (h : Handle) (cc cn : Bool)
+  | raiseSwitch (h : Handle) (cc cn : Bool)
+  | quit
+  | quitTo (h : Handle)
+  | raiseQuit
+  | raiseOther
+deriving DecidableEq, Repr, Inhabited
+
+inductive ProcKind where
+  | plain | update | coro
+deriving DecidableEq, Repr, Inhabited
+
+structure World where
+  enabled : Bool
+  queue : List (Ev × Args)
+  /-- coroutine processors whose generator ended with an exception -/
+  dead : List Nat
+deriving DecidableEq, Repr, Inhabited
+
+inductive Entry where
+  | load (i : Inst)
+  | ev (i : Inst) (e : Ev) (a : Args)
+  | frame (i : Inst) (dt : Int)
+  | proc (i : Inst) (p : Nat) (dt : Int)
+  /-- model-only marker: `Loop.switch` made `i` the current world -/
+  | enter (i : Inst)
+  | ret (o : Outcome) (running : Bool) (cur : Option Inst) (h : Option Handle)
+  | res (o : Outcome) (cur : Option Inst) (h : Option Handle)
+deriving DecidableEq, Repr, Inhabited
+
+structure Frame where
+  reading : Int
+  acts : List Act
+deriving DecidableEq, Repr, Inhabited
+
+structure Universe where
+  /-- events dispatched by the transform functions of handle `h` while its world is loaded -/
+  loadEvents : Handle → List (Ev × Args)
+  /-- processors of the worlds of handle `h`, in priority order -/
+  procs : Handle → List ProcKind
+  /-- reaction of the n-th delivery (counted over the whole scenario) -/
+  react : Nat → Act
+
+def upd {α β : Type} [DecidableEq α] (f : α → β) (a : α) (b : β) : α → β :=
+  fun x => if x = a then b else f x
+
+structure St where
+  worlds : Inst → Option World := fun _ => none
+  /-- `Handle._cached/_cache`: the load number of the cached instance -/
+  cache : Handle → Option Nat := fun _ => none
+  loads : Handle → Nat := fun _ => 0
+  current : Option Inst := none
+  currentHandle : Option Handle := none
+  running : Bool := false
+  last : Option Int := none
+  delivered : Nat := 0
+  /-- newest first -/
+  log : List Entry := []
+
+/-- `Handle.__call__` model/tree.py:40-46; the `load` of the scenario's handles is
+`WorldHandle.load` model/world.py:44-61: a new world with dispatching disabled, the transform
+functions (their events are queued), `dispatch('on_world_load', handle, world)` (queued). -/
+def callHandle (U : Universe) (s : St) (h : Handle) : St × Inst :=
+  match s.cache h with
+  | some n => (s, ⟨h, n⟩)
+  | none =>
+    let n := s.loads h + 1
+    let i : Inst := ⟨h, n⟩
+    let w : World := { enabled := false, queue := U.loadEvents h ++ [(.worldLoad, .loaded h i)],
+                       dead := [] }
+    ({ s with loads := upd s.loads h n, worlds := upd s.worlds i (some w),
+              cache := upd s.cache h (some n), log := .load i :: s.log }, i)
+
+/-- `Handle.clear` model/tree.py:48-51 -/
+def clearHandle (s : St) (h : Handle) : St := { s with cache := upd s.cache h none }
+
+def setWorld (s : St) (i : Inst) (w : World) : St := { s with worlds := upd s.worlds i (some w) }
+
+/-- `world.dispatch_enabled = False` events.py:122-131 -/
+def disable (s : St) (i : Inst) : St × Outcome :=
+  match s.worlds i with
+  | none => (s, .raised .noWorld)
+  | some w => (setWorld s i { w with enabled := false }, .ok)
+
+/-- `EventDispatcher.dispatch` events.py:97-116 for a world with one listener; `k` runs the
+reaction of the delivery. -/
+def dispatchWith (U : Universe) (k : St → Act → St × Outcome) (s : St) (i : Inst) (e : Ev)
+    (a : Args) : St × Outcome :=
+  match s.worlds i with
+  | none => (s, .raised .noWorld)
+  | some w =>
+    if !w.enabled then (setWorld s i { w with queue := w.queue ++ [(e, a)] }, .ok)
+    else k { s with delivered := s.delivered + 1, log := .ev i e a :: s.log } (U.react s.delivered)
+
+/-- `quit_loop(target)` loop.py: `target.dispatch('on_quit')`, then `raise Quit()` -/
+def quitWith (U : Universe) (k : St → Act → St × Outcome) (s : St) (i : Inst) : St × Outcome :=
+  match dispatchWith U k s i .quit .unit with
+  | (s', .ok) => (s', .raised .quit)
+  | r => r
+
+/-- `switch()`: `target_handle.cached and target_handle() is from_world` under `clear_current` -/
+def restartOf (s : St) (h : Handle) (cc : Bool) : Bool :=
+  cc && (match s.cache h with
+    | some n => decide (s.current = some ⟨h, n⟩)
+    | none => false)
+
+/-- `switch()`: `if from_world is not None:` dispatch on_switch_out(from, to) in the world being
+left, then `from_world.dispatch_enabled = False` -/
+def switchOut (U : Universe) (k : St → Act → St × Outcome) (s : St) (frm : Option Inst)
+    (to : Inst) : St × Outcome :=
+  match frm with
+  | none => (s, .ok)
+  | some f =>
+    match dispatchWith U k s f .switchOut (.worlds (some f) to) with
+    | (s2, .ok) => disable s2 f
+    | r => r
+
+/-- `switch()`: `to_world.dispatch_enabled = False`, dispatch on_switch_in(from, to) in it (it is
+queued), `raise SwitchWorld(target_handle, clear_current and not restart, False)` -/
+def switchIn (U : Universe) (k : St → Act → St × Outcome) (s : St) (frm : Option Inst) (to : Inst)
+    (h : Handle) (cc : Bool) : St × Outcome :=
+  match disable s to with
+  | (s4, .ok) =>
+    match dispatchWith U k s4 to .switchIn (.worlds frm to) with
+    | (s5, .ok) => (s5, .raised (.switch h cc false))
+    | r => r
+  | r => r
+
+/-- `switch(target_handle, clear_current, clear_next)` with `from_world=None`:
+`from_world = desper.default_loop.current_world`; a handle that is to be cleared is cleared
+before it is loaded (D15 repair) — a world that switches to its own handle with `clear_current`
+asks for the same thing; `to_world = target_handle()`; then the two halves above. -/
+def doSwitch (U : Universe) (k : St → Act → St × Outcome) (s : St) (h : Handle) (cc cn : Bool) :
+    St × Outcome :=
+  let restart := restartOf s h cc
+  let s0 := if cn || restart then clearHandle s h else s
+  let r := callHandle U s0 h
+  match switchOut U k r.1 s.current r.2 with
+  | (s3, .ok) => switchIn U k s3 s.current r.2 h (cc && !restart)
+  | r => r
+
+/-- One action of user code.  The state at the stop point is always returned. -/
+def act (U : Universe) : Nat → St → Act → St × Outcome
+  | 0, s, _ => (s, .outOfFuel)
+  | fuel + 1, s, a =>
+    match a with
+    | .none => (s, .ok)
+    | .raiseQuit => (s, .raised .quit)
+    | .raiseOther => (s, .raised .other)
+    | .raiseSwitch h cc cn => (s, .raised (.switch h cc cn))
+    | .quit =>
+      -- quit_loop(): target = desper.default_loop.current_world; `if target is not None:`
+      match s.current with
+      | none => (s, .raised .quit)
+      | some i => quitWith U (act U fuel) s i
+    | .quitTo h =>
+      -- quit_loop(handle()): the argument expression loads the handle if it is not cached
+      let r := callHandle U s h
+      quitWith U (act U fuel) r.1 r.2
+    | .switch h cc cn => doSwitch U (act U fuel) s h cc cn
+
+def dispatch (U : Universe) (fuel : Nat) (s : St) (i : Inst) (e : Ev) (a : Args) : St × Outcome :=
+  dispatchWith U (act U fuel) s i e a
+
+def markDead (s : St) (i : Inst) (p : Nat) : St :=
+  match s.worlds i with
+  | none => s
+  | some w => setWorld s i { w with dead := p :: w.dead }
+
+/-- `Processor.process(dt)` of processor number `p` of instance `i`: the scenario's processors log
+the call, then a plain processor performs the frame's action, an `OnUpdateProcessor`
+(logic/__init__.py:333-341) dispatches `on_update(dt)`, a `CoroutineProcessor` advances its
+generator by one step (the step performs the action; an exception ends the generator for good). -/
+def runProc (U : Universe) (fuel : Nat) (s : St) (i : Inst) (dt : Int) (p : Nat) (k : ProcKind)
+    (a : Act) : St × Outcome :=
+  let s := { s with log := .proc i p dt :: s.log }
+  match k with
+  | .plain => act U fuel s a
+  | .update => dispatch U fuel s i .update (.dt dt)
+  | .coro =>
+    match s.worlds i with
+    | none => (s, .raised .noWorld)
+    | some w =>
+      if w.dead.contains p then (s, .ok)
+      else
+        match act U fuel s a with
+        | (s', .ok) => (s', .ok)
+        | (s', .outOfFuel) => (s', .outOfFuel)
+        | (s', o) => (markDead s' i p, o)
+
+/-- `for processor in self._sorted_processors: processor.process(dt)` logic/world.py:512-513 -/
+def runProcs (U : Universe) (fuel : Nat) (i : Inst) (dt : Int) :
+    St → Nat → List ProcKind → List Act → St × Outcome
+  | s, _, [], _ => (s, .ok)
+  | s, p, k :: ks, acts =>
+    match runProc U fuel s i dt p k (acts.headD .none) with
+    | (s', .ok) => runProcs U fuel i dt s' (p + 1) ks acts.tail
+    | r => r
+
+/-- `World.process(dt)` logic/world.py:503-513 (no dead entities in these scenarios) -/
+def processWorld (U : Universe) (fuel : Nat) (s : St) (i : Inst) (dt : Int) (acts : List Act) :
+    St × Outcome :=
+  runProcs U fuel i dt { s with log := .frame i dt :: s.log } 0 (U.procs i.h) acts
+
+/-- `Loop.switch` -/
+def loopSwitch (U : Universe) (s : St) (h : Handle) (cc cn : Bool) : St :=
+  let s1 := if cc then
+      match s.currentHandle with
+      | some ch => clearHandle s ch
+      | none => s
+    else s
+  let s2 := if cn then clearHandle s1 h else s1
+  let (s3, i) := callHandle U { s2 with currentHandle := some h } h
+  { s3 with current := some i, log := .enter i :: s3.log }
+
+/-- the enabling assignment events.py:122-136 (repaired setter: pop one queued event at a time
+while enabled) -/
+def release (U : Universe) (fuel : Nat) : Nat → St → Inst → St × Outcome
+  | 0, s, _ => (s, .outOfFuel)
+  | n + 1, s, i =>
+    match s.worlds i with
+    | none => (s, .raised .noWorld)
+    | some w =>
+      match w.queue with
+      | [] => (s, .ok)
+      | (e, a) :: q =>
+        if !w.enabled then (s, .ok)
+        else
+          match dispatch U fuel (setWorld s i { w with queue := q }) i e a with
+          | (s', .ok) => release U fuel n s' i
+          | r => r
+
+/-- `world.dispatch_enabled = True` -/
+def enable (U : Universe) (fuel : Nat) (s : St) (i : Inst) : St × Outcome :=
+  match s.worlds i with
+  | none => (s, .raised .noWorld)
+  | some w => release U fuel fuel (setWorld s i { w with enabled := true }) i
+
+/-- `SimpleLoop.switch`: `super().switch(...)`, then `world_handle().dispatch_enabled = True` -/
+def simpleSwitch (U : Universe) (fuel : Nat) (s : St) (h : Handle) (cc cn : Bool) : St × Outcome :=
+  let s1 := loopSwitch U s h cc cn
+  let (s2, i) := callHandle U s1 h
+  enable U fuel s2 i
+
+/-- the `except SwitchWorld` clause of `SimpleLoop.loop` (D25 repair: a callback released while
+a world is entered may request a switch itself; that request is served as well) -/
+def handleSwitch (U : Universe) (fuel : Nat) : Nat → St → Handle → Bool → Bool → St × Outcome
+  | 0, s, _, _, _ => (s, .outOfFuel)
+  | n + 1, s, h, cc, cn =>
+    match simpleSwitch U fuel s h cc cn with
+    | (s', .raised (.switch h' cc' cn')) => handleSwitch U fuel n s' h' cc' cn'
+    | r => r
+
+/-- the delta time of a frame: loop.py `if self.last_timestamp is None: dt = 0 else ...` -/
+def dtOf (last : Option Int) (reading : Int) : Int :=
+  match last with
+  | none => 0
+  | some l => reading - l
+
+/-- one iteration of `while True:` in `SimpleLoop.loop` -/
+def loopStep (U : Universe) (fuel : Nat) (s : St) (f : Frame) : St × Outcome :=
+  let dt := dtOf s.last f.reading
+  let s := { s with last := some f.reading }
+  match s.current with
+  | none => (s, .raised .attributeError)
+  | some i =>
+    match processWorld U fuel s i dt f.acts with
+    | (s', .raised (.switch h cc cn)) => handleSwitch U fuel fuel s' h cc cn
+    | r => r
+
+/-- `SimpleLoop.loop`: the time function raises `ClockExhausted` when the readings are used up -/
+def loopRun (U : Universe) (fuel : Nat) : St → List Frame → St × Outcome
+  | s, [] => (s, .raised .clockExhausted)
+  | s, f :: fs =>
+    match loopStep U fuel s f with
+    | (s', .ok) => loopRun U fuel s' fs
+    | r => r
+
+/-- `SimpleLoop.start` around `Loop.start` (D16 repair: both resets are in `finally` clauses) -/
+def start (U : Universe) (fuel : Nat) (s : St) (frames : List Frame) : St × Outcome :=
+  let (s', o) := loopRun U fuel { s with running := true } frames
+  let s'' := { s' with running := false, last := none }
+  match o with
+  | .raised .quit => (s'', .ok)
+  | o => (s'', o)
+
+inductive Op where
+  | load (h : Handle)
+  | switch (h : Handle) (cc cn : Bool)
+  | start (frames : List Frame)
+deriving Repr, Inhabited
+
+def St.push (s : St) (e : Entry) : St := { s with log := e :: s.log }
+
+/-- top-level operation of the test program: its outcome is logged -/
+def topOp (U : Universe) (fuel : Nat) (s : St) : Op → St
+  | .load h =>
+    let (s', _) := callHandle U s h
+    s'.push (.res .ok s'.current s'.currentHandle)
+  | .switch h cc cn =>
+    let (s', o) := simpleSwitch U fuel s h cc cn
+    s'.push (.res o s'.current s'.currentHandle)
+  | .start frames =>
+    let (s', o) := start U fuel s frames
+    s'.push (.ret o s'.running s'.current s'.currentHandle)
+
+def run (U : Universe) (fuel : Nat) (s : St) (ops : List Op) : St :=
+  ops.foldl (topOp U fuel) s
+
+/-! ### line protocol -/
+open Proto
+
+def parseAct : List String → Option Act
+  | ["none"] => some .none
+  | ["switch", h, cc, cn] => do some (.switch (← h.toNat?) (← bool? cc) (← bool? cn))
+  | ["rswitch", h, cc, cn] => do some (.raiseSwitch (← h.toNat?) (← bool? cc) (← bool? cn))
+  | ["quit"] => some .quit
+  | ["quitto", h] => h.toNat?.map .quitTo
+  | ["rquit"] => some .raiseQuit
+  | ["rother"] => some .raiseOther
+  | _ => none
+
+/-- `act ; act ; act` -/
+def parseActs (toks : List String) : Option (List Act) :=
+  let groups := toks.foldr (fun t acc =>
+      if t = ";" then [] :: acc else match acc with
+        | [] => [[t]]
+        | g :: gs => (t :: g) :: gs) [[]]
+  (groups.filter (· ≠ [])).mapM parseAct
+
+def parseKind : String → Option ProcKind
+  | "p" => some .plain
+  | "u" => some .update
+  | "c" => some .coro
+  | _ => none
+
+def parseLoadEv (t : String) : Option (Ev × Args) :=
+  match t.splitOn ":" with
+  | [k, v] => do some (.custom (← k.toNat?), .tok (← v.toNat?))
+  | _ => none
+
+structure HandleDecl where
+  procs : List ProcKind
+  loadEvents : List (Ev × Args)
+
+structure Parsed where
+  handles : List HandleDecl := []
+  reacts : List (Nat × Act) := []
+  /-- newest first; frames of the newest `start` newest first -/
+  ops : List Op := []
+  bad : Bool := false
+
+def stripPrefix (p s : String) : Option String :=
+  if s.startsWith p then some (s.drop p.length).toString else none
+
+def actHandles : Act → List Handle
+  | .switch h _ _ => [h]
+  | .raiseSwitch h _ _ => [h]
+  | .quitTo h => [h]
+  | _ => []
+
+def parseLine (p : Parsed) (line : String) : Parsed :=
+  match tokens line with
+  | ["handle", h, pr, ld] =>
+    match h.toNat?, (stripPrefix "procs=" pr).bind (fun s => (splitList s).mapM parseKind),
+          (stripPrefix "load=" ld).bind (fun s => (splitList s).mapM parseLoadEv) with
+    | some h, some ks, some evs =>
+      if h = p.handles.length && !ks.isEmpty then
+        { p with handles := p.handles ++ [{ procs := ks, loadEvents := evs }] }
+      else { p with bad := true }
+    | _, _, _ => { p with bad := true }
+  | "react" :: n :: rest =>
+    match n.toNat?, parseAct rest with
+    | some n, some a => { p with reacts := (n, a) :: p.reacts }
+    | _, _ => { p with bad := true }
+  | ["op", "load", h] =>
+    match h.toNat? with
+    | some h => { p with ops := .load h :: p.ops }
+    | none => { p with bad := true }
+  | ["op", "switch", h, cc, cn] =>
+    match h.toNat?, bool? cc, bool? cn with
+    | some h, some cc, some cn => { p with ops := .switch h cc cn :: p.ops }
+    | _, _, _ => { p with bad := true }
+  | ["op", "start"] => { p with ops := .start [] :: p.ops }
+  | "frame" :: r :: rest =>
+    match r.toInt?, parseActs rest, p.ops with
+    | some r, some acts, .start fs :: ops =>
+      { p with ops := .start ({ reading := r, acts := acts } :: fs) :: ops }
+    | _, _, _ => { p with bad := true }
+  | [] => p
+  | _ => { p with bad := true }
+
+def Parsed.finish (p : Parsed) : List Op :=
+  p.ops.reverse.map fun
+    | .start fs => .start fs.reverse
+    | o => o
+
+def Parsed.universe (p : Parsed) : Universe :=
+  { loadEvents := fun h => ((p.handles[h]?).map (·.loadEvents)).getD []
+    procs := fun h => ((p.handles[h]?).map (·.procs)).getD []
+    react := fun n => ((p.reacts.find? (·.1 = n)).map (·.2)).getD .none }
+
+/-- every handle named by the scenario is declared -/
+def Parsed.wellFormed (p : Parsed) : Bool :=
+  let n := p.handles.length
+  let okAct := fun (a : Act) => (actHandles a).all (· < n)
+  p.reacts.all (fun r => okAct r.2) &&
+  p.ops.all fun
+    | .load h => h < n
+    | .switch h _ _ => h < n
+    | .start fs => fs.all (fun f => f.acts.all okAct)
+
+def showInst (i : Inst) : String := s!"{i.h}#{i.n}"
+def showOInst : Option Inst → String
+  | none => "None"
+  | some i => showInst i
+def showOHandle : Option Handle → String
+  | none => "None"
+  | some h => toString h
+
+def showExc : Exc → String
+  | .quit => "Quit"
+  | .switch .. => "SwitchWorld"
+  | .other => "Other"
+  | .attributeError => "AttributeError"
+  | .clockExhausted => "ClockExhausted"
+  | .noWorld => "NoWorld"
+
+def showOutcome : Outcome → String
+  | .ok => "ok"
+  | .raised e => s!"raised {showExc e}"
+  | .outOfFuel => "hang"
+
+def showEv : Ev → String
+  | .worldLoad => "on_world_load"
+  | .switchIn => "on_switch_in"
+  | .switchOut => "on_switch_out"
+  | .quit => "on_quit"
+  | .update => "on_update"
+  | .custom k => s!"c{k}"
+
+def showArgs : Args → String
+  | .unit => "_"
+  | .worlds f t => s!"{showOInst f},{showInst t}"
+  | .loaded h i => s!"{h},{showInst i}"
+  | .dt d => toString d
+  | .tok k => toString k
+
+def showEntry : Entry → String
+  | .load i => s!"load {showInst i}"
+  | .ev i e a => s!"ev {showInst i} {showEv e} {showArgs a}"
+  | .frame i dt => s!"frame {showInst i} {dt}"
+  | .proc i p dt => s!"proc {showInst i} {p} {dt}"
+  | .enter i => s!"enter {showInst i}"
+  | .ret o r c h =>
+    s!"ret {showOutcome o} running={showBool r} current={showOInst c} handle={showOHandle h}"
+  | .res o c h => s!"res {showOutcome o} current={showOInst c} handle={showOHandle h}"
+
+def defaultFuel : Nat := 200
+
+def runScenario (lines : List String) : List String :=
+  let p := lines.foldl parseLine {}
+  if p.bad || !p.wellFormed then ["bad-op"] else
+  let s := run p.universe defaultFuel {} p.finish
+  s.log.reverse.map showEntry
+
 end Desper.Loop
